@@ -52,7 +52,9 @@ Record decl := { d_name : str; d_kind : kind; d_perm : perm }.
 
 (* USE t [, rename-list]            : u_only = None,       u_renames = the (local, remote) pairs
    USE t, ONLY: only-list           : u_only = Some items, an item [x] is (x, x), [l => r] is (l, r) *)
-Record use_stmt := { u_target : str; u_only : option (list (str * str)); u_renames : list (str * str) }.
+(* u_intrinsic: the statement is written USE, INTRINSIC :: t *)
+Record use_stmt := { u_target : str; u_only : option (list (str * str)); u_renames : list (str * str);
+                     u_intrinsic : bool }.
 
 (* m_access: PUBLIC/PRIVATE statements naming entities that are not declared in the module itself
    (true = public).  The accessibility of own declarations is already resolved in d_perm (C04). *)
@@ -87,6 +89,23 @@ Fixpoint find_module (g : graph) (n : str) : option module :=
   end.
 
 (* ------------------------------------------------------------------ Model *)
+
+(* find_used_modules: a USEd name is matched with the first candidate of that name in
+   chain(modules, external_modules) -- the project's modules in project order, then the link
+   objects for settings.extra_mods (which always holds settings.INTRINSIC_MODS).  The module nature
+   written in the statement plays no part (USE_RE does not keep it).  So a project module is found
+   whenever one has the name ([find_used_module], UseAssocProofs), which is why the rules below
+   use [find_module]: an ExternalModule has empty tables and a name that matches nothing stays a
+   string, either way the statement adds no entry. *)
+Inductive cand := CMod (M : module) | CExt (n : str).
+Definition cand_name (x : cand) : str := match x with CMod M => m_name M | CExt n => n end.
+Definition chain (g : list module) (ext : list str) : list cand := map CMod g ++ map CExt ext.
+Fixpoint first_match (l : list cand) (n : str) : option cand :=
+  match l with
+  | [] => None
+  | x :: l' => if str_eqb (cand_name x) n then Some x else first_match l' n
+  end.
+Definition find_used (g : list module) (ext : list str) (n : str) : option cand := first_match (chain g ext) n.
 
 (* dict.update / repeated item assignment *)
 Definition update {V} (t : list (str * V)) (l : list (str * V)) : list (str * V) :=
@@ -290,8 +309,15 @@ Definition import_stmt (M : module) (u : use_stmt) (accT : list (str * ent)) : l
   | None => pick (u_renames u) accT
             ++ filter (fun re => negb (str_in (fst re) (hidden M (u_target u)))) accT
   end.
+(* the module a USE statement designates (Fortran 2018 14.2.2): with the module nature INTRINSIC an
+   intrinsic module, never a module of the project; with NON_INTRINSIC, or without a module nature,
+   the nonintrinsic module of that name if there is one (of several project modules of one name,
+   excluded by wf_graph, the first).  Entities of intrinsic and other external modules are not
+   entities of the project: such a statement contributes nothing here. *)
+Definition spec_module (g : graph) (u : use_stmt) : option module :=
+  if u_intrinsic u then None else find_module g (u_target u).
 Definition imports (g : graph) (M : module) (acc : module -> list (str * ent)) : list (str * ent) :=
-  flat_map (fun u => match find_module g (u_target u) with
+  flat_map (fun u => match spec_module g u with
                      | Some T => import_stmt M u (acc T)
                      | None => []
                      end) (m_uses M).
@@ -366,6 +392,14 @@ Definition wf_graph (g : graph) : bool :=
   && forallb (fun M => forallb (wf_nested g M) (m_nested M)) g
   && forallb (fun M => forallb (fun u => negb (str_eqb (u_target u) (m_name M)))
                                (flat_map s_uses (m_nested M))) g.
+
+(* region of the recorded finding intrinsic-nature-ignored: a statement USE, INTRINSIC :: t, in a
+   module or in a scope nested in it, where t is also the name of a module of the project *)
+Definition nature_ok (g : graph) (M : module) : bool :=
+  forallb (fun u => negb (u_intrinsic u) || match find_module g (u_target u) with Some _ => false | None => true end)
+          (m_uses M).
+Definition nature_free (g : graph) : bool :=
+  forallb (fun M => nature_ok g M && forallb (fun S => nature_ok g (as_module M S)) (m_nested M)) g.
 
 (* the tables FORD ends with for module M denote exactly the Spec's sets *)
 Definition tables_ok (c : cls) (g : graph) (st : state) (M : module) : Prop :=
